@@ -152,6 +152,59 @@ func (w *world) fileChecks() {
 	if len(r.Viol) == 0 && !r.CfgBool("notombcheck") {
 		w.checkTombstoneCommit(dir, files)
 	}
+	if len(r.Viol) == 0 && !r.CfgBool("nokeycursor") {
+		w.checkHeadTailTombstones(ctx, fs2, files, want, keys)
+	}
+}
+
+// checkHeadTailTombstones: C06 with several tombstone ranges inside ONE block. The histories rarely delete the first
+// and the last point of a block separately while points between them stay alive, so this is done here, on the copies:
+// for up to three keys the first and the last timestamp of one of their blocks are removed by two range deletes, and
+// the key cursors are compared with the earlier content minus those timestamps (last step: it changes the copies).
+func (w *world) checkHeadTailTombstones(ctx context.Context, fs2 *tsm1.FileStore, files []*tsm1.TSMReader, want map[string][]pv, keys []string) {
+	r := w.r
+	want2 := map[string][]pv{}
+	var keys2 []string
+	for _, k := range keys {
+		if len(keys2) >= 3 {
+			break
+		}
+	files:
+		for _, f := range files {
+			for _, e := range f.ReadEntries([]byte(k), nil) {
+				inner, hasMin, hasMax := false, false, false
+				for _, p := range want[k] {
+					inner = inner || p.ts > e.MinTime && p.ts < e.MaxTime
+					hasMin = hasMin || p.ts == e.MinTime
+					hasMax = hasMax || p.ts == e.MaxTime
+				}
+				if !inner || !hasMin || !hasMax {
+					continue
+				}
+				if err := fs2.DeleteRange([][]byte{[]byte(k)}, e.MinTime, e.MinTime); err != nil {
+					r.Violate("C06:read-error", "head-tail-delete", "DeleteRange on the copies: %v", err)
+					return
+				}
+				if err := fs2.DeleteRange([][]byte{[]byte(k)}, e.MaxTime, e.MaxTime); err != nil {
+					r.Violate("C06:read-error", "head-tail-delete", "DeleteRange on the copies: %v", err)
+					return
+				}
+				var left []pv
+				for _, p := range want[k] {
+					if p.ts != e.MinTime && p.ts != e.MaxTime {
+						left = append(left, p)
+					}
+				}
+				want2[k] = left
+				keys2 = append(keys2, k)
+				r.Probe("probe_head_tail_tombstones_in_one_block")
+				break files
+			}
+		}
+	}
+	if len(keys2) > 0 {
+		w.checkKeyCursors(ctx, fs2, want2, keys2)
+	}
 }
 
 // checkKeyCursors: C06.
